@@ -398,6 +398,12 @@ func init() {
 		return e.writeTo(args[0].(Iface), e.mkStr(append(append([]*smt.Term{}, e.strBytes(s)...), e.ctx.BV('\n', 8))))
 	})
 
+	// quoting of symbolic strings (error messages): approximated, never the subject of a property
+	quoteI := func(e *Engine, args []Value, fn *ssa.Function) Value { return e.quote(args[0].(Str)) }
+	reg("strconv.Quote", quoteI)
+	reg("strconv.QuoteToASCII", quoteI)
+	reg("strconv.quoteWith", quoteI)
+
 	// reflect / misc
 	reg("reflect.TypeOf", func(e *Engine, args []Value, fn *ssa.Function) Value { return Iface{} })
 	reg("os.Getenv", func(e *Engine, args []Value, fn *ssa.Function) Value { return Str{} })
